@@ -82,6 +82,20 @@ def run(tier):
         tasks.append({"op": "api_solve", "grid": v, "gridsize": d, "origin": None, "sources": src, "nsweep": 3, "grad": False,
                       "meta": {"kind": "layer", "nd": nd, "ax": ax, "sh": sh, "d": d, "src": src, "srcn": srcn, "prof": prof,
                                "equal": equal, "ref": 1, "cls": "node"}})
+    # targeted 3-D layer stacks: one-cell layers alternating between a slow and a fast velocity along each axis in turn,
+    # source on a node in the middle, so that the grid line through the source is followed towards both ends of the axis
+    # (a sweep direction that reads the velocity cell on the wrong side of the node shows on one side only)
+    for ax in range(3):
+        for fast_first in (False, True):
+            sh = tuple(6 if a == ax else 3 for a in range(3))
+            d = (0.5, 0.5, 0.5)
+            prof = np.array([3.0, 1.0] * 3 if fast_first else [1.0, 3.0] * 3)
+            v = np.take(prof, np.indices(sh)[ax])
+            srcn = [3 if a == ax else 1 for a in range(3)]
+            src = [srcn[a] * d[a] for a in range(3)]
+            tasks.append({"op": "api_solve", "grid": v, "gridsize": d, "origin": None, "sources": src, "nsweep": 3, "grad": False,
+                          "meta": {"kind": "layer", "nd": 3, "ax": ax, "sh": sh, "d": d, "src": src, "srcn": srcn, "prof": prof,
+                                   "equal": True, "ref": 1, "cls": "node", "targeted": "alt3d"}})
     # (b) half-spaces and (c) gradients at h and h/2
     for _ in range(12 if q else 100):
         nd = int(r.choice([2, 2, 3]))
